@@ -106,7 +106,11 @@ def drive(ctx, trace, rng, path, strings, tag, step):
             ctx.counters["workload.short_inputs"] += 1
         ctx.current = {"strings": [list(s) for s in strings][:30] if len(strings) < 100 else tag, "data": d[:600]}
         ctx.case(tag + d.hex(), len(d) >= 32, sample={"data_hex": d[:48].hex(), "len": len(d)} if len(d) == 48 else None)
-        trace.parse_trace_data(memoryview(d) if rng.random() < 0.5 else d, path)
+        try:
+            trace.parse_trace_data(memoryview(d) if rng.random() < 0.5 else d, path)
+        except Exception as e:
+            ctx.violation("C15/decoder-raised/" + type(e).__name__, "parse_trace_data raised %r (every input must be decoded or dumped)" % (e,),
+                          data=d[:600], strings=[list(s) for s in strings][:40] if len(strings) < 100 else tag)
 
 
 def run(spec, ctx):
